@@ -14,7 +14,8 @@ def generate(G):
     rel("mul_pass", "Mul", two, 1, False, "quick")
     rel("muladdshare_pass_keep", "MulAddShare", two, 1, True, "quick")
     rel("diamond_pass", "Diamond", two, 1, False, "quick")
-    rel("diamond_twice_keep", "Diamond", two, 2, True, "quick")
+    rel("diamond_twice_keep", "Diamond", two, 2, True, "thorough")
+    rel("muladdshare_twice_keep", "MulAddShare", two, 2, True, "quick")
     rel("square_pass", "Square", [L([2])], 1, True, "quick")
     rel("bcast_pass", "Mul", [L([2]), L([2, 2], "D2")], 1, False, "quick", unwind=8)
     rel("untracked_leaf", "MulAddShare", [L([2]), L([2], tracked=False)], 1, False, "quick")
